@@ -64,6 +64,8 @@ THEOREMS = [
     "IrVerif.Clone.C13_clone_error_exact",
     "IrVerif.Clone.C13_clone_raises_iff",
     "IrVerif.Clone.C13_value_map_bijection",
+    "IrVerif.Clone.C13_function_clone_succeeds",
+    "IrVerif.Clone.C13_function_clone_raises_iff",
 ]
 ASSUMPTIONS = [
     "hand-written model IrVerif.Clone of _cloner.py / the clone entry points / the constructors they call; tied to the "
@@ -74,7 +76,8 @@ ASSUMPTIONS = [
     "intermediate states are not observable (heaps are compared up to renaming after every step, also after raising steps)",
     "a type object is one cell (wrapper chain flattened): sharing of an inner type object between two outer type objects "
     "is not expressible in the model (the oracle still covers it on the real objects); opset_imports dicts are by value",
-    "meta values are opaque atoms in the model; deep_copy=True is covered by the oracle only",
+    "meta values are opaque atoms in the model (deep_copy=True is the same model function); that deep_copy=True copies the "
+    "objects stored in meta is covered by the oracle only",
     "tensors, attribute payloads and device-configuration payloads are opaque shared ids; in-place mutation of a shared "
     "Attr object (Attr.name=, Attr.doc_string=) or of a shared tensor (its .name follows Value.name=) is outside the edit "
     "alphabet: the property allows tensors to be shared and the cloner shares non-graph attributes",
@@ -82,8 +85,29 @@ ASSUMPTIONS = [
     "fixed to what the clone entry points pass",
     "values named None (Graph.__init__ invents names, property C15) are outside the model (answer 'unsupported'); "
     "nodes named None are modelled (clone_graph keeps them anonymous since the fix of D111)",
-    "frame theorems quantify over the edit alphabet IrVerif.Clone.Edit (23 editing calls, listed in Model/Clone.lean) with "
-    "arguments outside the protected region; other editing calls are covered by the oracle only as far as generated",
+    "frame theorems quantify over the edit alphabets IrVerif.Clone.Edit (31 editing calls) and IrVerif.Clone.Edit2 (those "
+    "plus graph.inputs.append/pop, initializers[k]=v, del initializers[k], register_initializer, sort, insert_before/after, "
+    "replace_all_uses_with, resize_inputs/outputs, model.functions[id]=f, del model.functions[id]: 44 calls) with receivers "
+    "and arguments outside the protected region; the *_ext theorems need the extended separation (users of a value, outputs "
+    "of a node, inputs and initializers of a graph do not lead into the protected region), which holds for "
+    "allow_outer_scope_values=False clones (proved) and fails by design for allow=True (outer.replace_all_uses_with(..) on "
+    "the original rewires the clone's nodes that consume the captured value); other editing calls (slices of graph.inputs/"
+    "outputs, initializers.update/pop/clear, Graph.extend/remove(safe=True), convenience.*) are covered by the oracle only",
+    "Graph.sort is modelled for graphs whose nodes hold no subgraph attribute (else the model answers 'unsupported' and the "
+    "history is judged by the oracle only); the model runs its own transcription of the stable Kahn sort (property C12 owns "
+    "the algorithm) and is compared with the real order on every generated sort; a detached former node output has "
+    "_index == -1 in Python and index none in the model (the abstraction maps -1 to none)",
+    "C13_clone_succeeds / C13_clone_raises_iff / C13_clone_error_exact / C13_value_map_bijection: the hypothesis is the "
+    "verdict of the scope walker IrVerif.Clone.cloneVerdict on the SOURCE heap (a decidable traversal with four lists as "
+    "state); it is evaluated on every generated graph / subgraph / view clone and compared with the outcome of the real "
+    "clone and of the model's clone (message included); 'irregular' verdicts (dangling pointer, node output already bound, "
+    "initializer names not distinct) carry no claim and their share is published; Function.clone has its own verdict "
+    "(funcVerdict: body + graph-valued attribute defaults under one value map, C13_function_clone_*); Model.clone has no "
+    "walker theorem (outcome correspondence only)",
+    "C13_closed_sharding assumes devLocalW (every sharding spec targets an input or output of its own node), evaluated on "
+    "every abstracted heap; nothing in the Node constructor enforces it: for a non-local spec the cloner (since the fix of "
+    "D350) leaves the clone's spec on the ORIGINAL's value (finding D340, proposed_fixes/D340.diff); the generator family "
+    "for non-local specs (NONLOCAL_SPEC_P) is switched off until D340 is fixed or recorded",
     "the frame theorems assume the heap before cloning has no dangling pointers and every const_value is a tensor "
     "object (wellFormed), C13_failed_clone_no_residue that usage records name existing cells (usesBounded); both are "
     "checked on every abstracted real heap by the driver",
@@ -91,13 +115,10 @@ ASSUMPTIONS = [
     "cell EXCEPT the tensor cells (Protected); Value.name= writes through to the shared tensor's name (known finding "
     "D113); a graph-free Attr object is shared too and its in-place state (meta) is outside the model (oracle-only "
     "edit attrMetaSet, known finding D114)",
-    "graph-level progress (a sorted, well-scoped graph clones successfully) is NOT proved: C13_raises_iff_inputs "
-    "characterises exactly when the node-input loop raises; that the model returns ok is established per run by the "
-    "correspondence of outcomes on every generated case and by the non-vacuity examples",
-    "C13_faithful* relate values by observation (VInfo), references by 'same reference or equally observed value'; "
-    "an identity-level bijection on value ids is not proved (the correspondence check compares wiring exactly, up to "
-    "renaming, on every generated case); sharding references are covered by the simulation (same payload, same or "
-    "equally observed value) and by the oracle, not by a closedness theorem",
+    "C13_faithful* relate values by observation (VInfo), references by 'same reference or equally observed value'; the "
+    "identity-level statement is C13_value_map_bijection (keys = the region's values once each, injective, onto the value "
+    "cells the clone created); that the clone's wiring is the image of the source's wiring under that map is compared "
+    "exactly, up to renaming, on every generated case (not a theorem)",
     "node-input closedness: allow_outer_scope_values=False -> every input is a value of the clone (C13_closed); "
     "True -> every input is a value of the clone or a pre-existing value not defined at the top level of the graph "
     "being cloned, for the root and for every nested clone_graph call (C13_closed_outer / cloneGraph_cov); a value "
@@ -115,6 +136,11 @@ import onnx_ir as ir  # noqa: E402
 # --------------------------------------------------------------------------- building real IR from a spec
 
 _DTYPES = [1, 7, 6, 10, 9, 11]  # FLOAT INT64 INT32 FLOAT16 BOOL DOUBLE
+# probability that a generated sharding spec targets a value that is NOT an input/output of its node (finding D340:
+# the cloner leaves such a spec on the original's value).  0 (set C13_NONLOCAL_SPEC_P=0.3 to switch it on) until D340
+# is fixed in /repo or recorded as known; with
+# a positive value the oracle reports `closed:sharding:own-value-of-original:*` on the unfixed code.
+NONLOCAL_SPEC_P = float(__import__("os").environ.get("C13_NONLOCAL_SPEC_P", "0") or 0)
 
 
 def build_type(t):
@@ -1152,6 +1178,9 @@ class SpecGen:
                 n["unname"] = True
             if self.nconfigs and rng.random() < 0.3:
                 cands = [x for x in n["inputs"] if x is not None] + [o["name"] for o in n["outs"]]
+                if NONLOCAL_SPEC_P and local and rng.random() < NONLOCAL_SPEC_P:
+                    cands = cands + [rng.choice(local)]  # a value of this graph that the node does not touch
+                    n["nonlocal_spec"] = True
                 n["dev"] = []
                 for _ in range(rng.choice([1, 1, 2, 3])):
                     # configurations with nothing to remap (no specs / value None) next to ones with values
@@ -1865,14 +1894,19 @@ def compare_cases(ctx: Ctx, results):
     # of the real clone and of the model's clone, message included, unless it answers `irregular` (no claim)
     vreqs, vres = [], []
     for r, o in zip(results, outs):
-        if r["step"]["op"] == "graphClone" and "err" not in o and o["outcomes"][0]["r"] == "ok" and o["outcomes"][1]["r"] == "ok":
+        if "err" in o or o["outcomes"][0]["r"] != "ok" or o["outcomes"][1]["r"] != "ok":
+            continue
+        if r["step"]["op"] == "graphClone":
             vreqs.append({"m": "clone.verdict", "world": r["world0"], "g": r["step"]["g"], "allow": r["step"]["allow"]})
+            vres.append((r, o["outcomes"][2]))
+        elif r["step"]["op"] == "funcClone":  # funcVerdict (C13_function_clone_*)
+            vreqs.append({"m": "clone.verdict", "world": r["world0"], "f": r["step"]["f"]})
             vres.append((r, o["outcomes"][2]))
     for (r, oc), v in zip(vres, lean_batch_parallel(vreqs)):
         if "err" in v:
             ctx.disagree("driver error (verdict)", {"spec": r["spec"]}, v, None)
             continue
-        ctx.count(f"verdict={v['v']}:real={r['outcome']}")
+        ctx.count(f"{'func_' if r['step']['op'] == 'funcClone' else ''}verdict={v['v']}:real={r['outcome']}")
         if v["v"] == "irregular":
             ctx.count(f"verdict_irregular_because={v.get('why')}")
             continue
